@@ -1,10 +1,340 @@
-"""C19: structural clauses (see DESIGN.md section 4)."""
+"""C19 estimators / relaxed distributions: sampling modes, zero-valued surrogates and detach
+discipline (G15), constructor definite assignment (G22), transposable call sites (G1/G2)."""
 from __future__ import annotations
 
-from rules import fwd as R_fwd
+import ast
+from typing import List, Optional, Tuple
+
+from rules.initorder import init_reads_before_set
+from sa.astutil import call_name, guards_of, parent_map, u
+from sa.defuse import ReachingDefs
+from sa.model import AnalysisError, own_calls, own_nodes
+from sa.resolve import bind_args
 from .common import Ctx, plumbing
+
+SAMPLING = {  # class -> uses reparameterised sampling?
+    "_mc::DirectEstimator": False,
+    "_mc::ImportanceSamplingEstimator": False,
+    "_mc::IndependentMetropolisHastingsEstimator": False,
+    "_enumerate_estimator::EnumerateEstimator": False,
+    "_mc::ReparameterizationEstimator": True,
+    "_mc::StraightThroughEstimator": True,
+    "_mc::RelaxEstimator": True,
+}
+
+
+def _terms(e: ast.AST, sign: int = 1) -> List[Tuple[int, ast.AST]]:
+    if isinstance(e, ast.BinOp) and isinstance(e.op, ast.Add):
+        return _terms(e.left, sign) + _terms(e.right, sign)
+    if isinstance(e, ast.BinOp) and isinstance(e.op, ast.Sub):
+        return _terms(e.left, sign) + _terms(e.right, -sign)
+    if isinstance(e, ast.UnaryOp) and isinstance(e.op, ast.USub):
+        return _terms(e.operand, -sign)
+    return [(sign, e)]
+
+
+def _is_detach(e: ast.AST) -> Optional[ast.AST]:
+    if isinstance(e, ast.Call) and isinstance(e.func, ast.Attribute) and e.func.attr == "detach" and not e.args:
+        return e.func.value
+    return None
+
+
+def _has_detach(e: ast.AST) -> bool:
+    return any(_is_detach(n) is not None for n in ast.walk(e))
+
+
+def _logprob_call(e: ast.AST, who: str = "proposal") -> bool:
+    return isinstance(e, ast.Call) and isinstance(e.func, ast.Attribute) and e.func.attr in ("log_prob", "tlog_prob") \
+        and u(e.func.value) == f"self.{who}"
 
 
 def run(ctx: Ctx):
-    plumbing(ctx, 'S1')
-    return dict(explanation='plumbing clauses only (work in progress)', decided=['S1'], not_decided=[])
+    col, pkg, res = ctx.col, ctx.pkg, ctx.res
+    # ---- S1 sampling mode ------------------------------------------------------------------------------
+    for spec, want_r in SAMPLING.items():
+        ci = pkg.cls(spec)
+        f = res.find_method(ci, "__call__")[0]
+        rel = f.module.relname
+        where = f"{rel}::{f.qualname}"
+        meths = {c.func.attr for c in own_calls(f.node) if isinstance(c.func, ast.Attribute)
+                 and u(c.func.value) == "self.proposal" and c.func.attr in ("sample", "rsample", "enumerate_support")}
+        for g in res.find_method(ci, "find_initial_sample"):
+            meths |= {c.func.attr for c in own_calls(g.node) if isinstance(c.func, ast.Attribute)
+                      and u(c.func.value) == "self.proposal" and c.func.attr in ("sample", "rsample")}
+        ok = ("rsample" in meths) == want_r and (want_r or bool(meths - {"rsample"}))
+        col.ob("G15", "S1", f"{where}::sampling-mode", ok,
+               f"{ci.name} draws with {sorted(meths)}; it must {'use' if want_r else 'never use'} rsample (a "
+               f"reparameterised draw adds a pathwise gradient the score-function estimators do not account for)",
+               rel, f.line, sample=sorted(meths))
+
+    # ---- S2/S3 zero-valued surrogates and score-function coefficient ------------------------------
+    n_sur = n_sf = 0
+    for spec in SAMPLING:
+        ci = pkg.cls(spec)
+        f = res.find_method(ci, "__call__")[0]
+        rel = f.module.relname
+        where = f"{rel}::{f.qualname}"
+        rd = ReachingDefs(f.node)
+        rets = [st for st, _ in rd.return_envs]
+        if not rets:
+            raise AnalysisError(f"C19: {f.key} has no return")
+        reach = set()
+        for st in rets:
+            der = rd.derives(st.value)
+            for e in der.exprs:
+                for n in ast.walk(e):
+                    reach.add(id(n))
+        lp_names = {d.name for d in rd.defs if d.kind == "assign" and _logprob_call(d.value)}
+        # S2(a): every additive -X.detach() has +X in the same sum
+        for n in own_nodes(f.node):
+            val = n.value if isinstance(n, (ast.Assign, ast.Return, ast.AugAssign)) else None
+            if val is None or id(val) not in reach and not isinstance(n, ast.Return):
+                continue
+            ts = _terms(val)
+            if len(ts) < 2:
+                continue
+            for sg, t in ts:
+                x = _is_detach(t)
+                if x is None:
+                    continue
+                if sg > 0:
+                    # value kept, gradient blocked: the remaining terms must be zero-weighted (S4 idiom)
+                    others = [tt for s2, tt in ts if tt is not t]
+                    okz = all(isinstance(tt, ast.BinOp) and isinstance(tt.op, ast.Mult) and (
+                        u(tt.left) in ("0", "0.0") or u(tt.right) in ("0", "0.0")) for tt in others)
+                    col.ob("G15", "S2", f"{where}::+{u(t)}::rest-zero-weighted", okz,
+                           f"`{u(val)}` keeps the value of `{u(x)}` with its gradient blocked but adds terms that "
+                           f"are not multiplied by 0", rel, n.lineno, sample=u(val))
+                    continue
+                n_sur += 1
+                twin = any(s2 > 0 and u(tt) == u(x) for s2, tt in ts)
+                col.ob("G15", "S2", f"{where}::-{u(t)}::has-twin", twin,
+                       f"`{u(val)}` subtracts `{u(t)}` without adding `{u(x)}`: the surrogate is not zero-valued, "
+                       f"the estimate itself is shifted", rel, n.lineno, sample=u(val))
+        # S3: score-function products: other factor detached, log-prob not
+        sf_names = []
+        for n in own_nodes(f.node):
+            if isinstance(n, ast.BinOp) and isinstance(n.op, ast.Mult) and id(n) in reach:
+                for a, b in ((n.left, n.right), (n.right, n.left)):
+                    core = _is_detach(a) if _is_detach(a) is not None else a
+                    is_lp = (isinstance(core, ast.Name) and core.id in lp_names) or _logprob_call(core)
+                    if not is_lp:
+                        continue
+                    n_sf += 1
+                    okc = _is_detach(b) is not None
+                    col.ob("G15", "S3", f"{where}::score-function-coefficient({u(n)[:50]})", okc,
+                           f"in `{u(n)}` the factor multiplying the proposal's log-probability is not detached: "
+                           f"the gradient gets an extra pathwise term (biased)", rel, n.lineno, sample=u(n))
+                    st = pm_stmt(f, n)
+                    if isinstance(st, ast.Assign) and isinstance(st.targets[0], ast.Name):
+                        sf_names.append(st.targets[0].id)
+            # the log-prob itself must not be detached where it is used as the score
+            if isinstance(n, ast.Call) and _is_detach(n) is not None and id(n) in reach:
+                x = _is_detach(n)
+                if (isinstance(x, ast.Name) and x.id in lp_names) or _logprob_call(x):
+                    who = spec.split("::")[1]
+                    if who != "ImportanceSamplingEstimator":
+                        col.ob("G15", "S3", f"{where}::log-prob-not-detached", False,
+                               f"`{u(n)}` detaches the proposal's log-probability: no gradient reaches the "
+                               f"distribution's parameters", rel, n.lineno, sample=u(n))
+        # S2(b): each score-function term is cancelled in the returned sum
+        for nm in sf_names:
+            found = False
+            for n in own_nodes(f.node):
+                val = n.value if isinstance(n, (ast.Assign, ast.Return)) else None
+                if val is None:
+                    continue
+                ts = _terms(val)
+                has_pos = any(s > 0 and u(t) == nm for s, t in ts)
+                has_neg = any(s < 0 and _is_detach(t) is not None and u(_is_detach(t)) == nm for s, t in ts)
+                if has_pos or has_neg:
+                    found = True
+                    col.ob("G15", "S2", f"{where}::{nm}::cancelled-by-its-detached-copy", has_pos and has_neg,
+                           f"`{u(val)}`: the score-function term `{nm}` must appear as `+ {nm} - {nm}.detach()` "
+                           f"(value zero, gradient kept)", rel, n.lineno, sample=u(val))
+            col.ob("G15", "S2", f"{where}::{nm}::reaches-the-estimate", found,
+                   f"the score-function term `{nm}` never enters the returned value (no gradient w.r.t. the "
+                   f"distribution's parameters)", rel, f.line)
+    col.floor("surrogate_pairs", n_sur, 4)
+    col.floor("score_function_products", n_sf, 2)
+
+    # ---- S4 importance weights ----------------------------------------------------------------------------
+    ci = pkg.cls("_mc::ImportanceSamplingEstimator")
+    f = res.find_method(ci, "__call__")[0]
+    rel = f.module.relname
+    where = f"{rel}::{f.qualname}"
+    rd = ReachingDefs(f.node)
+    ret = [st for st, _ in rd.return_envs][-1]
+    der = rd.derives(ret.value)
+    uses = [n for e in der.exprs for n in ast.walk(e) if isinstance(n, ast.Name) and isinstance(n.ctx, ast.Load)]
+    q_ok = p_ok = None
+    for n in uses:
+        for d in rd.defs_of(n):
+            if d.kind == "assign" and _logprob_call(d.value, "proposal"):
+                # a raw proposal log-prob may only be consumed by the detaching redefinition
+                st = pm_stmt(f, n)
+                is_redef = isinstance(st, ast.Assign) and any(_is_detach(t) is not None and u(_is_detach(t)) == n.id
+                                                              for s, t in _terms(st.value) if s > 0)
+                zero_w = _under_zero_product(f, n)
+                ok = is_redef or zero_w
+                q_ok = ok if q_ok is None else (q_ok and ok)
+            if d.kind == "assign" and _logprob_call(d.value, "density"):
+                p_ok = True if p_ok is None else p_ok
+    for n in own_nodes(f.node):
+        x = _is_detach(n) if isinstance(n, ast.Call) else None
+        if x is not None and isinstance(x, ast.Name):
+            if any(d.kind == "assign" and _logprob_call(d.value, "density") for d in rd.defs_of(x)):
+                p_ok = False
+    col.ob("G15", "S4", f"{where}::proposal-log-prob-gradient-blocked", bool(q_ok),
+           "the proposal's log-probability reaches the importance weights undetached: the estimate's gradient gets "
+           "a spurious term from the proposal", rel, f.line)
+    col.ob("G15", "S4", f"{where}::density-log-prob-undetached", bool(p_ok),
+           "the target density's log-probability is detached / missing: no gradient reaches the density's "
+           "parameters", rel, f.line)
+
+    # ---- S5 no_grad regions ------------------------------------------------------------------------------
+    ci = pkg.cls("_mc::IndependentMetropolisHastingsEstimator")
+    for mname in ("__call__", "find_initial_sample"):
+        f = res.find_method(ci, mname)[0]
+        rel = f.module.relname
+        pm = parent_map(f.node)
+        bad = []
+        for c in own_calls(f.node):
+            if isinstance(c.func, ast.Attribute) and c.func.attr in ("sample", "log_prob") or call_name(c) == "self.func":
+                p = pm.get(c)
+                inside = False
+                while p is not None:
+                    if isinstance(p, ast.With) and any("no_grad" in u(it.context_expr) for it in p.items):
+                        inside = True
+                    p = pm.get(p)
+                if not inside:
+                    bad.append(c)
+        col.ob("G15", "S5", f"{rel}::{f.qualname}::under-no-grad", not bad,
+               f"`{u(bad[0])[:60] if bad else ''}` runs outside torch.no_grad() in the Metropolis-Hastings chain",
+               rel, bad[0].lineno if bad else f.line)
+    ci = pkg.cls("_enumerate_estimator::EnumerateEstimator")
+    f = res.find_method(ci, "__call__")[0]
+    col.ob("G15", "S5", f"{f.module.relname}::{f.qualname}::detaches-nothing", not _has_detach(f.node),
+           "the exact (enumeration) estimator detaches part of its computation: its gradient is no longer the exact "
+           "gradient", f.module.relname, f.line)
+
+    # ---- S5' constructor definite assignment -----------------------------------------------------------------
+    n_init = 0
+    for f in ctx.owned():
+        if f.name != "__init__" or f.cls is None or f.parent is not None:
+            continue
+        n_init += 1
+        rel = f.module.relname
+        bads = init_reads_before_set(res, f)
+        col.ob("G22", "S5'", f"{rel}::{f.qualname}::reads-before-initialisation", not bads,
+               (f"`self.{bads[0][0]}` is read before it is assigned and before super().__init__() on the path "
+                f"{bads[0][2]}: AttributeError whenever that branch is taken") if bads else "", rel,
+               bads[0][1].lineno if bads else f.line, sample=[b[0] for b in bads] or "all reads dominated")
+    col.floor("constructors_checked", n_init, 12)
+
+    # ---- S6 transposable call sites --------------------------------------------------------------------------
+    srs = pkg.func("_combinatorics::simple_random_sampling_without_replacement")
+    n_srs = 0
+    for f in pkg.all_functions():
+        for c in own_calls(f.node):
+            r = res.resolve_call(c, f)
+            if r and r[0][0] is srs:
+                n_srs += 1
+                b = bind_args(c, srs, False)
+                got = {p.name: u(a) for p, a, _ in b.pairs}
+                # positional arguments named like another formal are caught by G1; here: by role
+                tot, giv = got.get("total_count"), got.get("given_count")
+                ok = tot is not None and giv is not None and "given" not in tot and "total" not in giv
+                col.ob("G1", "S6", f"{f.module.relname}::{f.qualname}::simple_random_sampling_without_replacement(total,given)",
+                       ok, f"total_count<-{tot}, given_count<-{giv}", f.module.relname, c.lineno, sample=got)
+    col.floor("srswor_call_sites", n_srs, 1)
+    plumbing(ctx, "S6")
+    return dict(
+        explanation=(
+            "Decides for C19: (S1) which estimators draw reparameterised samples; (S2) every additive "
+            "-X.detach() has its +X twin and every score-function term enters the estimate as +T - T.detach(); "
+            "(S3) the coefficient of the proposal's log-probability is detached and the log-probability is not; "
+            "(S4) in importance sampling the proposal's log-probability only reaches the weights detached (plus a "
+            "zero-weighted term), the density's undetached; (S5) the Metropolis-Hastings chain and its initial-sample "
+            "search run under no_grad, the enumeration estimator detaches nothing; (S5') no constructor reads an "
+            "attribute before it is assigned / before super().__init__ [F15, repaired]; (S6) call sites of the "
+            "transposable (total, given) pair. NOT decided: exact unbiasedness, relaxed densities, cardinality of "
+            "samples (numerical)."),
+        decided=["S1", "S2", "S3", "S4", "S5", "S5'", "S6"],
+        not_decided=["exact unbiasedness of value and gradient", "relaxed density factorisation",
+                     "threshold(csample(b)) == b", "support / normalisation of distributions"],
+        assumptions=["torch autograd semantics of detach / no_grad", "docstring formulas of the estimators as oracle"],
+    )
+
+
+def pm_stmt(f, node):
+    pm = getattr(f, "_pm", None)
+    if pm is None:
+        pm = parent_map(f.node)
+        f._pm = pm
+    n = node
+    while n is not None and not isinstance(n, ast.stmt):
+        n = pm.get(n)
+    return n
+
+
+def _under_zero_product(f, node) -> bool:
+    pm = getattr(f, "_pm", None) or parent_map(f.node)
+    f._pm = pm
+    n = node
+    while n is not None and not isinstance(n, ast.stmt):
+        p = pm.get(n)
+        if isinstance(p, ast.BinOp) and isinstance(p.op, ast.Mult):
+            other = p.right if p.left is n else p.left
+            if u(other) in ("0", "0.0"):
+                return True
+        n = p
+    return False
+
+
+def _mutants():
+    from selftest.mutate import Mutant as M
+    F = "_mc.py"
+    return [
+        M("direct-uses-rsample", F, "b = self.proposal.sample([self.mc_samples])\n        fb = self.func(b)\n        if self.is_log:\n            fb_lmax",
+          "b = self.proposal.rsample([self.mc_samples])\n        fb = self.func(b)\n        if self.is_log:\n            fb_lmax", "sampling-mode"),
+        M("reparam-uses-sample", F, "z = self.proposal.rsample([self.mc_samples])\n        fz = self.func(z)",
+          "z = self.proposal.sample([self.mc_samples])\n        fz = self.func(z)", "sampling-mode"),
+        M("direct-drop-detach-coefficient", F, "deriv = (fb.detach() * log_pb).mean(0)", "deriv = (fb * log_pb).mean(0)",
+          "score-function-coefficient"),
+        M("direct-surrogate-broken", F, "v = fb + deriv - deriv.detach()\n        return v\n", "v = fb + deriv\n        return v\n",
+          "cancelled-by-its-detached-copy"),
+        M("direct-surrogate-wrong-twin", F, "v = fb.log() + deriv - deriv.detach() + fb_lmax\n        else:\n            v = fb + deriv - deriv.detach()\n        return v\n",
+          "v = fb.log() + deriv - fb.detach() + fb_lmax\n        else:\n            v = fb + deriv - deriv.detach()\n        return v\n", "G15/S2"),
+        M("relax-drop-detach", F, "deriv = fb_cvzcond.detach() * log_pb", "deriv = fb_cvzcond * log_pb", "score-function-coefficient"),
+        M("relax-logprob-detached", F, "deriv = fb_cvzcond.detach() * log_pb", "deriv = fb_cvzcond.detach() * log_pb.detach()",
+          "G15/S3"),
+        M("is-proposal-not-detached", F, "lqb = lqb.detach() + 0 * lqb.sum()", "lqb = lqb + 0 * lqb.sum()", "proposal-log-prob-gradient-blocked"),
+        M("is-density-detached", F, "lpb = self.density.log_prob(b)\n        lqb", "lpb = self.density.log_prob(b).detach()\n        lqb", "density-log-prob"),
+        M("mh-outside-no-grad", F, "with torch.no_grad():\n            if self.initial_sample is None:\n                last_sample = self.find_initial_sample()\n            else:\n                last_sample = self.initial_sample",
+          "if True:\n            if self.initial_sample is None:\n                last_sample = self.find_initial_sample()\n            else:\n                last_sample = self.initial_sample", "under-no-grad"),
+        M("mh-init-reads-self", F, "sample_shape = proposal.batch_shape + proposal.event_shape", "sample_shape = self.proposal.batch_shape + self.proposal.event_shape",
+          "reads-before-initialisation"),
+        M("enumerate-detaches", "_enumerate_estimator.py", "v = (fb * log_pb.exp()).sum(0)", "v = (fb * log_pb.exp().detach()).sum(0)", "detaches-nothing"),
+        M("twin:rename-deriv", F, "deriv", "score", "", -1, twin=True),
+    ]
+
+
+def selftest(ctx: Ctx):
+    from selftest.mutate import run_selftest
+    return run_selftest("C19", ctx.pkg.repo, _mutants(), floor=10)
+
+
+MANIFEST = dict(
+    level_text=(
+        "Static detach-taint / additive-term analysis (no execution) of every estimator's __call__: sampling mode "
+        "per estimator, zero-valued surrogate pairs (+T - T.detach()), detached coefficient of the score function, "
+        "gradient blocking of the proposal in importance weights, no_grad regions of the Metropolis-Hastings chain; "
+        "plus definite assignment in all constructors of the estimator/distribution modules. A dropped or misplaced "
+        "detach changes the gradient's mean - exactly what the statistical tests cannot see - and is decided here "
+        "from the expression structure. Exact unbiasedness and the relaxed densities are numerical and not decided."),
+    level_note="Trusted: python ast; autograd semantics of detach/no_grad; the estimators' docstring formulas. F15 "
+               "(MH constructor reads self.proposal before super().__init__) was found by G22 and repaired.",
+    technique="static analysis: additive-term/detach structure analysis on def-use chains, path-based definite assignment",
+    design_ref="DESIGN.md section 4 C19",
+)
